@@ -11,6 +11,20 @@ COMMON_TB = [
 NOT_CLAIMED_REASON = {}
 
 PROPS = {
+    "C10": {
+        "modules": ["AidlVerif.Props.C10"],
+        "theorems": ["Aidl.Props.C10.flags", "Aidl.Props.C10.warningsAt_setUpOneway", "Aidl.Props.C10.errorsAt_returnDiags", "Aidl.Props.C10.holds"],
+        "suites": ["oneway", "proj"],
+        "keys": {"corr": ["C10"], "spec": ["C10"], "assume": ["C10"], "outcome": True},
+        "trusted_base": COMMON_TB,
+        "assumptions": [
+            "hypothesis `Fresh` of Props.C10.holds (no other Warning on a method's oneway range, no other Error on a method's return-type name, e.g. an unresolved return type) is decidable and evaluated on every case; where it fails only the model-vs-implementation projection is compared",
+        ],
+        "level_text": "Theorems (all interfaces, all member mixes, all hash orders): in the validated tree a method is oneway iff the source says so or the interface is oneway (`flags`, via `methodsOf_validated`: nothing else in a method changes except type kinds); the Warnings of the propagation step are exactly one per method of a oneway interface that spells `oneway`, on its oneway range (`warningsAt_setUpOneway`); the return rule pushes one Error on the return type iff the method is oneway AFTER propagation and not void (`errorsAt_returnDiags`, resolution never creates or removes `void`: `newKind_void`); `holds` puts them together for the sorted diagnostics of any file.",
+        "level_note": "Trusted: Lean kernel (+ propext, Classical.choice, Quot.sound), the hand-written model of validation.rs tied to the code by the correspondence run, the harness.",
+        "rule": "suite oneway: exhaustive interfaces of <= 2 (quick) / <= 3 (thorough) methods x interface oneway x per-method oneway x return type over the 17 categories, with a constant interleaved; suite proj: random projects. distinct = distinct input digest; non-trivial = at least one method in a parsed interface",
+        "exhaustive": False,
+    },
     "C05": {
         "modules": ["AidlVerif.Props.C05"],
         "theorems": ["Aidl.Props.C05.classify_eq", "Aidl.Props.C05.resolveTypes_eq", "Aidl.Props.C05.holds"],
